@@ -9,6 +9,9 @@
 (* the logged values.  Prefixes: "C18." clauses of the property;           *)
 (* "M18." the code differs from the design model's exact partition without *)
 (* breaking the property (reported as a note, not as a violation);         *)
+(* C18.InfoAgrees: the entries carry exactly cores_per_node / gpus_per_node *)
+(* usable cores / GPUs of the same RMInfo (at agent_0 and in the registry   *)
+(* copy); C18.RefusesInconsistent: an uninterpretable host file is refused. *)
 (* "D20." the backup list does not name the spare nodes (known deviation,  *)
 (* outside the statement of C18).                                          *)
 (***************************************************************************)
@@ -25,8 +28,9 @@ T  == Traces[tid]
 Ev == T.events
 I  == inp
 Conv(J) ==
-      [rm |-> J.rm, hosts |-> J.hosts, shape |-> J.shape, pseudo |-> J.pseudo, style |-> J.style,
-       cores |-> J.cores, smt |-> J.smt, known |-> J.known, gpn |-> J.gpn,
+      [rm |-> J.rm, hosts |-> J.hosts, shape |-> J.shape, pseudo |-> J.pseudo, pslots |-> J.pslots,
+       uneven |-> J.uneven, style |-> J.style,
+       cores |-> J.cores, smt |-> J.smt, known |-> J.known, gpn |-> J.gpn, gpusrc |-> J.gpusrc,
        bc |-> SeqSet(J.bc), bg |-> SeqSet(J.bg), requested |-> J.requested, slack |-> J.slack,
        backup |-> J.backup, agents |-> J.agents, service |-> J.service]
 
@@ -43,7 +47,7 @@ NoP == [nodes |-> <<>>, agents |-> <<>>, service |-> <<>>, backup |-> <<>>]
 \* the clauses of C18 on an offered partition
 OfferErrs(p) ==
   LET in == I
-      ee == ExpectError(in)
+      ee == Refuses(in)
       ex == Expected(in)
   IN   E(OnePerNode(p, in), "C18.OnePerNode")
   \cup E(Sized(p, in),      "C18.Sized")
@@ -51,7 +55,8 @@ OfferErrs(p) ==
   \cup E(Reserved(p, in),   "C18.Reserved")
   \cup E(NonEmpty(p),       "C18.NonEmpty")
   \cup E(NotLonger(p, in),  "C18.NotLonger")
-  \cup E(~ee,               "M18.OfferedDespiteShortage")
+  \cup E(~Uninterpretable(in), "C18.RefusesInconsistent")
+  \cup E(~ExpectError(in),  "M18.OfferedDespiteShortage")
   \cup (IF ee THEN {}
         ELSE E(p.nodes = ex.nodes /\ p.agents = ex.agents /\ p.service = ex.service, "M18.Partition")
              \cup E(p.backup = ex.backup, "D20.BackupList"))
@@ -83,15 +88,17 @@ Step ==
                LET p == ToP(e.P) IN
                /\ last' = p
                /\ errs' = errs \cup OfferErrs(p)
+                    \cup E(InfoAgrees(p, e.cpn, e.gpn), "C18.InfoAgrees")
                     \cup E(last = p, "M18.ChangedAfterFilter")
                     \cup E(e.req = Req(I), "M18.RequestedNodes")
           [] e.ev = "Failed" ->
                /\ last' = NoP
-               /\ errs' = errs \cup E(ExpectError(I), "C18.Initialises")
+               /\ errs' = errs \cup E(Refuses(I), "C18.Initialises")
           [] e.ev = "Recreated" ->
                LET p == ToP(e.P) IN
                /\ last' = last
                /\ errs' = errs \cup E(e.fromreg /\ e.same /\ p = last, "C18.SameEverywhere")
+                               \cup E(InfoAgrees(p, e.cpn, e.gpn), "C18.InfoAgrees")
                                \cup E("Done" \in seen, "M18.Order")
           [] OTHER ->
                /\ last' = last
